@@ -18,7 +18,7 @@ class _Subst(ast.NodeTransformer):
 
 class SpecMixin:
     SPEC_FUNCS = {"forall", "exists", "forall2", "implies", "iff", "old", "strictly_increasing", "nondecreasing",
-                  "member", "psum", "same", "ite", "unchanged", "is_none", "card", "psum_monotone", "mpow", "wsum", "intro_all", "intro", "dict_values_in", "lemma"}
+                  "member", "psum", "same", "ite", "unchanged", "is_none", "card", "psum_monotone", "mpow", "wsum", "intro_all", "intro", "dict_values_in", "lemma", "ksum", "ksum_split", "ksum_shift", "ksum_perm", "is_int", "define", "by", "psum_bound"}
 
     def parse_spec(self, src):
         if src not in self._spec_cache:
@@ -64,7 +64,7 @@ class SpecMixin:
             return
         if isinstance(src, (list, tuple)):
             src = "\n".join(src)
-        stmts = ast.parse(src).body
+        stmts = [self.expand_macros(x) for x in ast.parse(src).body]
         saved, self.spec = self.spec, True
         try:
             outs = self.exec_block(stmts, st)
@@ -235,7 +235,7 @@ class SpecMixin:
         i, j, k = fresh("i", INT), fresh("j", INT), fresh("k", INT)
         zero = z3.RealVal(0) if kind == "real" else zint(0)
         nonneg = z3.ForAll([k], z3.Implies(z3.And(k >= 0, k < n), z3.Select(a, k) >= zero))
-        self.trust("lemma: prefix sums of a non-negative array are non-decreasing (induction; stated, standard)")
+        self.lemmas_used.add("psum_monotone")   # proved by induction in pyvc/lemmas.py (lemma::ksum obligations)
         if not z3.is_const(a):
             a_c = fresh("lensarr", a.sort())
             st.assume(a_c == a)
@@ -353,6 +353,22 @@ class SpecMixin:
         st.assume(z3.ForAll([c], z3.Implies(z3.And(c >= 0, c < n), ab)))
         return Sc("bool", z3.BoolVal(True))
 
+    def spec_psum_bound(self, node, st):
+        """LEMMA (proved by induction in pyvc/lemmas.py): psum_bound(a, i, n): 0 <= i < n and a[k] >= 0 on [0, n)  ==>
+        psum(a, i+1) == psum(a, i) + a[i]  and  psum(a, i) + a[i] <= psum(a, n).   A ground instance: nothing to instantiate."""
+        v = self.eval(node.args[0], st)
+        i, n = self.eval_int(node.args[1], st), self.eval_int(node.args[2], st)
+        kind = self.elem_kind(st, v)
+        f = self.psum_fn(kind)
+        a = self.as_z3_array(st, v)
+        k = fresh("k", INT)
+        zero = z3.RealVal(0) if kind == "real" else zint(0)
+        prem = z3.And(0 <= i, i < n, z3.ForAll([k], z3.Implies(z3.And(k >= 0, k < n), z3.Select(a, k) >= zero)))
+        concl = z3.And(f(a, i + 1) == f(a, i) + z3.Select(a, i), f(a, i) + z3.Select(a, i) <= f(a, n))
+        self.lemmas_used.add("psum_bound")
+        self._last_lemma = (prem, concl, "0 <= i < n and the entries on [0, n) are non-negative")
+        return Sc("bool", z3.Implies(prem, concl))
+
     def spec_dict_values_in(self, node, st):
         """dict_values_in(d, lo, hi): every value stored in d lies in [lo, hi)."""
         d = st.obj(self.eval(node.args[0], st))
@@ -361,7 +377,124 @@ class SpecMixin:
         v = z3.Select(d.val, k)
         return Sc("bool", qall([k], z3.Implies(z3.Select(d.dom, k), z3.And(v >= lo, v < hi)), pats=[z3.Select(d.dom, k)]))
 
-    LEMMA_FUNCS = {"psum_monotone"}
+    LEMMA_FUNCS = {"psum_bound", "psum_monotone", "ksum_split", "ksum_shift", "ksum_perm"}
+
+    # ---- keyed sums: ksum(keys, vals, K, lo, hi) = sum of vals[p] over lo <= p < hi with keys[p] == K
+    def ksum_fn(self, kk):
+        from .lib import _RECFUNS
+        from . import lemmas
+        return lemmas.ksum_fn(kk, _RECFUNS)
+
+    def _ksum_parts(self, st, keys_node, vals_node):
+        kv, vv = self.eval(keys_node, st), self.eval(vals_node, st)
+        kk, vk = self.elem_kind(st, kv), self.elem_kind(st, vv)
+        if kk not in ("int", "real") or vk != "real":
+            raise VCError("ksum needs int/real keys and real values, got %s/%s" % (kk, vk))
+        return kk, self.as_z3_array(st, kv), self.as_z3_array(st, vv)
+
+    def _ksum_key(self, kk, K):
+        return z3.ToReal(K) if kk == "real" else K
+
+    def _ksum_term(self, kk, ka, va, K, idx):
+        return ite(z3.Select(ka, idx) == self._ksum_key(kk, K), z3.Select(va, idx), z3.RealVal(0))
+
+    def spec_ksum(self, node, st):
+        kk, ka, va = self._ksum_parts(st, node.args[0], node.args[1])
+        K, lo, hi = (self.eval_int(a, st) for a in node.args[2:5])
+        return Sc("real", self.ksum_fn(kk)(ka, va, self._ksum_key(kk, K), lo, hi))
+
+    def spec_by(self, node, st):
+        """by(goal, fact1, fact2, ...): ghost code only - a local lemma.  Every fact is an obligation in the current context; the
+        implication  fact1 and fact2 ... ==> goal  is an obligation discharged in ISOLATION (the facts are the only hypotheses:
+        small non-linear arguments stay small); then goal is known.  Nothing is assumed."""
+        if len(node.args) < 2:
+            raise VCError("by(goal, facts...) needs at least one fact")
+        goal = truth(self.eval(node.args[0], st))
+        facts = [truth(self.eval(a, st)) for a in node.args[1:]]
+        saved, self.spec = self.spec, False
+        try:
+            for a, f in zip(node.args[1:], facts):
+                self.oblige(st, "by-premise", node, f, "fact used by a local lemma: %s" % ast.unparse(a)[:120])
+            self.oblige_isolated(st, "by", node, facts, goal, "local lemma (facts ==> goal, proved in isolation): %s" % ast.unparse(node.args[0])[:120])
+        finally:
+            self.spec = saved
+        return Sc("bool", z3.BoolVal(True))
+
+    def spec_define(self, node, st):
+        """define('F', lambda k: body): ghost code only - introduces a ghost function F: int -> int by its defining equation
+        (forall k. F(k) == body(k), body evaluated in the current state).  Conservative: body is a total term of k."""
+        name, lam = node.args[0].value, node.args[1]
+        if not isinstance(lam, ast.Lambda) or len(lam.args.args) != 1:
+            raise VCError("define needs a one-parameter lambda")
+        g = fresh_func("g_" + name, INT, INT)
+        k = fresh("k", INT)
+        pn = lam.args.args[0].arg
+        saved = st.vars.get(pn)
+        st.vars[pn] = (Sc("int", k), True)
+        try:
+            body = self.eval_int(lam.body, st)
+        finally:
+            if saved is None:
+                st.vars.pop(pn, None)
+            else:
+                st.vars[pn] = saved
+        st.assume(z3.ForAll([k], g(k) == body, patterns=[g(k)]))
+        st.ghost = dict(st.ghost)
+        st.ghost[name] = g
+        return Sc("bool", z3.BoolVal(True))
+
+    def spec_is_int(self, node, st):
+        v = self.eval(node.args[0], st)
+        return Sc("bool", z3.IsInt(v.t) if v.kind == "real" else z3.BoolVal(True))
+
+    def spec_ksum_split(self, node, st):
+        """LEMMA (proved by induction in pyvc/lemmas.py on every run): lo <= m <= hi  ==>  ksum(lo,hi) == ksum(lo,m) + ksum(m,hi)."""
+        kk, ka, va = self._ksum_parts(st, node.args[0], node.args[1])
+        K, lo, m, hi = (self.eval_int(a, st) for a in node.args[2:6])
+        f, Kk = self.ksum_fn(kk), self._ksum_key(kk, K)
+        prem = z3.And(lo <= m, m <= hi)
+        concl = f(ka, va, Kk, lo, hi) == f(ka, va, Kk, lo, m) + f(ka, va, Kk, m, hi)
+        self.lemmas_used.add("ksum_split")
+        self._last_lemma = (prem, concl, "lo <= m <= hi")
+        return Sc("bool", z3.Implies(prem, concl))
+
+    def spec_ksum_shift(self, node, st):
+        """LEMMA (proved by induction in pyvc/lemmas.py): two stretches of n entries whose keyed contributions agree position by
+        position have the same keyed sum:  ksum_shift(k1, v1, lo1, k2, v2, lo2, K, n)."""
+        kk1, ka1, va1 = self._ksum_parts(st, node.args[0], node.args[1])
+        lo1 = self.eval_int(node.args[2], st)
+        kk2, ka2, va2 = self._ksum_parts(st, node.args[3], node.args[4])
+        lo2 = self.eval_int(node.args[5], st)
+        K, n = self.eval_int(node.args[6], st), self.eval_int(node.args[7], st)
+        j = fresh("j", INT)
+        prem = z3.And(n >= 0, z3.ForAll([j], z3.Implies(z3.And(j >= 0, j < n),
+                      self._ksum_term(kk1, ka1, va1, K, lo1 + j) == self._ksum_term(kk2, ka2, va2, K, lo2 + j))))
+        concl = self.ksum_fn(kk1)(ka1, va1, self._ksum_key(kk1, K), lo1, lo1 + n) == self.ksum_fn(kk2)(ka2, va2, self._ksum_key(kk2, K), lo2, lo2 + n)
+        self.lemmas_used.add("ksum_shift")
+        self._last_lemma = (prem, concl, "keyed contributions agree position by position on the n entries")
+        return Sc("bool", z3.Implies(prem, concl))
+
+    def spec_ksum_perm(self, node, st):
+        """LEMMA (TRUSTED here; Lean proof in lean/KsumPerm.lean): if perm is an injection of [0,n) into [0,n) and entry lo+j of
+        (k2,v2) is entry lo+perm[j] of (k1,v1), the keyed sums over [lo, lo+n) agree:  ksum_perm(k1, v1, k2, v2, perm, K, lo, n)."""
+        kk1, ka1, va1 = self._ksum_parts(st, node.args[0], node.args[1])
+        kk2, ka2, va2 = self._ksum_parts(st, node.args[2], node.args[3])
+        pv = self.eval(node.args[4], st)
+        pa = self.as_z3_array(st, pv)
+        K, lo, n = (self.eval_int(a, st) for a in node.args[5:8])
+        i, j = fresh("i", INT), fresh("j", INT)
+        prem = z3.And(
+            n >= 0,
+            z3.ForAll([j], z3.Implies(z3.And(j >= 0, j < n), z3.And(z3.Select(pa, j) >= 0, z3.Select(pa, j) < n))),
+            z3.ForAll([i, j], z3.Implies(z3.And(0 <= i, i < j, j < n), z3.Select(pa, i) != z3.Select(pa, j))),
+            z3.ForAll([j], z3.Implies(z3.And(j >= 0, j < n), z3.And(z3.Select(ka2, lo + j) == z3.Select(ka1, lo + z3.Select(pa, j)),
+                                                                     z3.Select(va2, lo + j) == z3.Select(va1, lo + z3.Select(pa, j))))))
+        concl = self.ksum_fn(kk1)(ka1, va1, self._ksum_key(kk1, K), lo, lo + n) == self.ksum_fn(kk2)(ka2, va2, self._ksum_key(kk2, K), lo, lo + n)
+        self.trust("lemma: a keyed sum is invariant under a permutation of the summed stretch (stated; Lean proof lean/KsumPerm.lean checked by the thorough tier)")
+        self.lemmas_used.add("ksum_perm")
+        self._last_lemma = (prem, concl, "perm is an injection of [0,n) into itself and (k2,v2)[lo+j] == (k1,v1)[lo+perm[j]]")
+        return Sc("bool", z3.Implies(prem, concl))
+
 
     def spec_lemma(self, node, st):
         """lemma(psum_monotone(...)): in ghost code, add an instance of a (stated, trusted) lemma to what is known.  Only the
@@ -372,10 +505,11 @@ class SpecMixin:
         self._last_lemma = None
         whole = truth(self.eval(inner, st))
         if self._last_lemma and self._last_lemma[1] is not None:
-            premise, concl = self._last_lemma
+            premise, concl = self._last_lemma[:2]
+            why = self._last_lemma[2] if len(self._last_lemma) > 2 else "entries non-negative"
             saved, self.spec = self.spec, False
             try:
-                self.oblige(st, "lemma-premise", node, premise, "premise of %s (entries non-negative)" % ast.unparse(inner)[:80])
+                self.oblige(st, "lemma-premise", node, premise, "premise of %s (%s)" % (ast.unparse(inner)[:80], why))
             finally:
                 self.spec = saved
             st.assume(concl)
